@@ -82,6 +82,12 @@ class Operand(property):
         if issubclass(self._cls, Register):
             regs = self._cls.all_registers()
             reg_map = {r.num: r for r in regs}
+            if value not in reg_map:
+                # Not an encoding of this instruction: report it the same
+                # way as a mismatch of a fixed bit pattern.
+                raise ValueError(
+                    f"Cannot decode: no register {value} in {self._cls}"
+                )
             return reg_map[value]
         else:
             # assume int here!
